@@ -435,3 +435,242 @@ Proof.
   cbn zeta. split; [|repeat split; vm_compute; reflexivity].
   unfold wf_head. repeat split; try (vm_compute; reflexivity). apply N.leb_le. reflexivity.
 Qed.
+
+(* ---- decimal rendering read back ---- *)
+Lemma parse_dec_acc_snoc s : forall acc c,
+  parse_dec_acc acc (s ++ [c]) =
+  match parse_dec_acc acc s with
+  | Some v => if is_digit c then Some (v * 10 + (c - 48)) else None
+  | None => None
+  end.
+Proof.
+  induction s as [|d s IH]; intros acc c; cbn [app parse_dec_acc].
+  - destruct (is_digit c); reflexivity.
+  - destruct (is_digit d); [apply IH | reflexivity].
+Qed.
+
+Lemma is_digit_48 d : d <= 9 -> is_digit (48 + d) = true.
+Proof. intro H. unfold is_digit. apply andb_true_iff. split; apply N.leb_le; lia. Qed.
+
+Lemma dec_fuel_ok : forall fuel n, n < 10 ^ N.of_nat (S fuel) -> parse_dec_acc 0 (dec_fuel (S fuel) n) = Some n.
+Proof.
+  induction fuel as [|f IH]; intros n H.
+  - change (10 ^ N.of_nat 1) with 10 in H. cbn [dec_fuel]. apply N.ltb_lt in H. rewrite H. apply N.ltb_lt in H.
+    cbn [parse_dec_acc]. rewrite is_digit_48 by lia. f_equal. lia.
+  - change (dec_fuel (S (S f)) n) with (if n <? 10 then [48 + n] else dec_fuel (S f) (n / 10) ++ [48 + n mod 10]).
+    destruct (n <? 10) eqn:E.
+    + apply N.ltb_lt in E. cbn [parse_dec_acc]. rewrite is_digit_48 by lia. f_equal. lia.
+    + apply N.ltb_ge in E. rewrite parse_dec_acc_snoc.
+      rewrite IH.
+      * assert (M : n mod 10 < 10) by (apply N.mod_lt; lia).
+        rewrite is_digit_48 by lia. f_equal.
+        pose proof (N.div_mod n 10 ltac:(lia)) as DM.
+        remember (n / 10) as q. remember (n mod 10) as r. clear Heqq Heqr IH. lia.
+      * apply N.div_lt_upper_bound; [lia|].
+        replace (N.of_nat (S (S f))) with (N.succ (N.of_nat (S f))) in H by lia.
+        rewrite N.pow_succ_r' in H. exact H.
+Qed.
+
+Lemma dec_fuel_length : forall fuel n, (length (dec_fuel fuel n) <= fuel)%nat.
+Proof.
+  induction fuel as [|f IH]; intro n; cbn [dec_fuel]; [simpl; lia|].
+  destruct (n <? 10); [simpl; lia|]. rewrite app_length. specialize (IH (n / 10)). simpl. lia.
+Qed.
+
+Lemma dec_fuel_digits : forall fuel n, forallb is_digit (dec_fuel fuel n) = true.
+Proof.
+  induction fuel as [|f IH]; intro n; cbn [dec_fuel]; [reflexivity|].
+  destruct (n <? 10) eqn:E.
+  - apply N.ltb_lt in E. cbn [forallb]. rewrite is_digit_48 by lia. reflexivity.
+  - rewrite forallb_app, IH. cbn [forallb]. rewrite is_digit_48; [reflexivity|].
+    assert (M : n mod 10 < 10) by (apply N.mod_lt; lia). lia.
+Qed.
+
+Lemma dec_nonempty n : dec n <> [].
+Proof.
+  unfold dec. change (dec_fuel 18 n) with (if n <? 10 then [48 + n] else dec_fuel 17 (n / 10) ++ [48 + n mod 10]).
+  destruct (n <? 10); [discriminate|]. destruct (dec_fuel 17 (n / 10)); discriminate.
+Qed.
+
+(* the Content-Length the model writes is read back exactly (bound: 18 decimal digits) *)
+Lemma parse_dec_dec n : n < 10 ^ 18 -> parse_dec (dec n) = Some n.
+Proof.
+  intro H. unfold parse_dec. pose proof (dec_nonempty n) as NE. destruct (dec n) as [|c s] eqn:E; [contradiction|].
+  rewrite <- E. pose proof (dec_fuel_length 18 n) as L. unfold dec in *. apply Nat.leb_le in L. rewrite L.
+  exact (dec_fuel_ok 17 n H).
+Qed.
+
+(* ---- the error response forwarder builds is a complete well-formed response ---- *)
+Lemma forallb_rev {A} (f : A -> bool) l : forallb f (rev l) = forallb f l.
+Proof.
+  induction l as [|a l IH]; [reflexivity|]. cbn [rev forallb]. rewrite forallb_app, IH. cbn [forallb].
+  rewrite andb_true_r. apply andb_comm.
+Qed.
+
+Lemma no_byte_trim_left c s : no_byte c s = true -> no_byte c (trim_ows_left s) = true.
+Proof.
+  induction s as [|x s IH]; intro H; [reflexivity|]. cbn [trim_ows_left].
+  destruct (is_ows x); [|exact H]. apply IH. cbn [no_byte forallb] in H. apply andb_true_iff in H as [_ H]. exact H.
+Qed.
+
+Lemma no_byte_trim c s : no_byte c s = true -> no_byte c (trim_ows s) = true.
+Proof.
+  intro H. unfold trim_ows, no_byte. rewrite forallb_rev. apply no_byte_trim_left. unfold no_byte. rewrite forallb_rev.
+  apply no_byte_trim_left. exact H.
+Qed.
+
+Lemma no_crlf_sanitize v : no_byte LF (sanitize v) = true /\ no_byte CR (sanitize v) = true.
+Proof.
+  unfold sanitize. split; apply no_byte_trim; unfold no_byte; rewrite forallb_forall; intros x Hx;
+    apply in_map_iff in Hx as (y & <- & _);
+    destruct ((y =? CR) || (y =? LF)) eqn:E; try reflexivity;
+    apply orb_false_iff in E as [E1 E2]; [rewrite E2 | rewrite E1]; reflexivity.
+Qed.
+
+Lemma trim_ows_digits s : forallb is_digit s = true -> trim_ows (32 :: s) = s.
+Proof.
+  intro H.
+  assert (L : forall t, forallb is_digit t = true -> trim_ows_left t = t).
+  { intros [|x t] Ht; [reflexivity|]. cbn [trim_ows_left]. cbn [forallb] in Ht. apply andb_true_iff in Ht as [D _].
+    unfold is_ows. unfold is_digit in D. apply andb_true_iff in D as [D1 D2]. apply N.leb_le in D1, D2.
+    replace (x =? 32) with false by (symmetry; apply N.eqb_neq; lia).
+    replace (x =? 9) with false by (symmetry; apply N.eqb_neq; lia). reflexivity. }
+  unfold trim_ows. cbn [trim_ows_left is_ows N.eqb orb]. change (is_ows 32) with true. cbv iota.
+  rewrite (L s H). rewrite (L (rev s)) by (rewrite forallb_rev; exact H). apply rev_involutive.
+Qed.
+
+Lemma hdr_ok_prefixed (pre x : str) kv :
+  line_ok pre = true -> no_byte LF x = true -> no_byte CR x = true ->
+  parse_header_line (pre ++ x) = Some kv -> hdr_ok (pre ++ x) = true.
+Proof.
+  intros P L C K. unfold hdr_ok. rewrite K. rewrite andb_true_r.
+  destruct (line_ok_facts pre P) as (P1 & P2 & P3). unfold line_ok. rewrite !no_byte_app, P1, P2, L, C.
+  destruct pre; [contradiction | reflexivity].
+Qed.
+
+Section ErrorResponse.
+  Variables (minor d2 d1 d0 : N) (reason name msg errtext : str) (close : bool).
+  Hypothesis Hminor : minor <= 9.
+  Hypothesis Hd2 : 4 <= d2 <= 5.
+  Hypothesis Hd1 : d1 <= 9.
+  Hypothesis Hd0 : d0 <= 9.
+  Hypothesis HrLF : no_byte LF reason = true.
+  Hypothesis HrCR : no_byte CR reason = true.
+  Hypothesis Hlen : N.of_nat (length (error_body name msg errtext)) < 10 ^ 18.
+
+  Let code := code_of d2 d1 d0.
+  Let body := error_body name msg errtext.
+  Let n := N.of_nat (length body).
+  Let sl := status_line minor d2 d1 d0 reason.
+  Let hls := error_lines d2 d1 d0 name msg errtext close.
+
+  Lemma nb48 c d : c < 48 -> negb (48 + d =? c) = true.
+  Proof. intro H. apply negb_true_iff. apply N.eqb_neq. lia. Qed.
+
+  Lemma sl_line_ok : line_ok sl = true.
+  Proof.
+    unfold line_ok, sl, status_line. rewrite !no_byte_app, HrLF, HrCR.
+    unfold no_byte. cbn [forallb b N_of_ascii N_of_digits].
+    rewrite !nb48 by (unfold LF, CR; lia). reflexivity.
+  Qed.
+
+  Lemma sl_parses : parse_status_line sl = Some (1, minor, code).
+  Proof.
+    unfold parse_status_line, sl, status_line. cbn [b N_of_ascii N_of_digits app has_prefix skipn].
+    rewrite !N.eqb_refl. cbn [andb]. rewrite !is_digit_48 by lia.
+    change (is_digit 49) with true. cbn [andb]. unfold code, code_of.
+    replace (48 + minor - 48) with minor by lia. replace (48 + d2 - 48) with d2 by lia.
+    replace (48 + d1 - 48) with d1 by lia. replace (48 + d0 - 48) with d0 by lia. reflexivity.
+  Qed.
+
+  Lemma code_ge : 100 <= code.
+  Proof. unfold code, code_of. lia. Qed.
+
+  Lemma code_has_body : (code / 100 =? 1) || (code =? 204) || (code =? 304) = false.
+  Proof.
+    unfold code, code_of.
+    assert (Q : (d2 * 100 + d1 * 10 + d0) / 100 = d2).
+    { symmetry. apply (N.div_unique _ 100 d2 (d1 * 10 + d0)); lia. }
+    rewrite Q. repeat (apply orb_false_iff; split); apply N.eqb_neq; lia.
+  Qed.
+
+  (* the header lines, as the parser reads them *)
+  Definition cl_line (x : str) : str := b "Content-Length: " ++ x.
+  Definition ct_line : str := b "Content-Type: text/plain; charset=utf-8".
+  Definition pa_line (x : str) : str := b "Proxy-Authenticate: Basic realm=""" ++ x.
+  Definition fe_line (x : str) : str := b "X-Forwarder-Error: " ++ x.
+  Definition cc_line : str := b "Connection: close".
+
+  Lemma ph_cl x : parse_header_line (cl_line x) = Some (b "Content-Length", trim_ows (32 :: x)).
+  Proof. reflexivity. Qed.
+  Lemma ph_pa x : parse_header_line (pa_line x) = Some (b "Proxy-Authenticate", trim_ows (b " Basic realm=""" ++ x)).
+  Proof. reflexivity. Qed.
+  Lemma ph_fe x : parse_header_line (fe_line x) = Some (b "X-Forwarder-Error", trim_ows (32 :: x)).
+  Proof. reflexivity. Qed.
+
+  Lemma digits_no c : c < 48 -> forall s, forallb is_digit s = true -> no_byte c s = true.
+  Proof.
+    intros H s D. unfold no_byte. rewrite forallb_forall in *. intros x Hx. specialize (D x Hx).
+    unfold is_digit in D. apply andb_true_iff in D as [D1 _]. apply N.leb_le in D1.
+    apply negb_true_iff. apply N.eqb_neq. lia.
+  Qed.
+
+  Lemma hls_ok : forallb hdr_ok hls = true.
+  Proof.
+    assert (CL : hdr_ok (cl_line (dec n)) = true).
+    { eapply (hdr_ok_prefixed (b "Content-Length: ") (dec n)); [reflexivity | | | apply ph_cl];
+        apply digits_no; try (unfold LF, CR; lia); apply dec_fuel_digits. }
+    assert (FE : hdr_ok (fe_line (sanitize (name ++ [32] ++ errtext))) = true).
+    { destruct (no_crlf_sanitize (name ++ [32] ++ errtext)) as [A C].
+      eapply (hdr_ok_prefixed (b "X-Forwarder-Error: ")); [reflexivity | exact A | exact C | apply ph_fe]. }
+    assert (PA : hdr_ok (pa_line (sanitize name ++ b """")) = true).
+    { destruct (no_crlf_sanitize name) as [A C].
+      eapply (hdr_ok_prefixed (b "Proxy-Authenticate: Basic realm=""")); [reflexivity | | | apply ph_pa];
+        rewrite no_byte_app; [rewrite A | rewrite C]; reflexivity. }
+    unfold hls, error_lines. fold body n. fold (cl_line (dec n)) ct_line (fe_line (sanitize (name ++ [32] ++ errtext)))
+      (pa_line (sanitize name ++ b """")) cc_line.
+    assert (CC : hdr_ok cc_line = true) by (vm_compute; reflexivity).
+    assert (CT : hdr_ok ct_line = true) by (vm_compute; reflexivity).
+    destruct close; destruct (code_of d2 d1 d0 =? 407); cbn [app forallb] in FE |- *; rewrite ?CL, ?FE, ?PA, ?CC, ?CT; reflexivity.
+  Qed.
+
+  Lemma hls_te : values_of (b "transfer-encoding") (map kv_of hls) = [].
+  Proof.
+    unfold hls, error_lines. fold body n. fold (cl_line (dec n)) (fe_line (sanitize (name ++ [32] ++ errtext)))
+      (pa_line (sanitize name ++ b """")).
+    destruct close; destruct (code_of d2 d1 d0 =? 407); cbn [app map]; unfold kv_of; rewrite ?ph_cl, ?ph_fe, ?ph_pa; reflexivity.
+  Qed.
+
+  Lemma hls_cl : values_of (b "content-length") (map kv_of hls) = [dec n].
+  Proof.
+    unfold hls, error_lines. fold body n. fold (cl_line (dec n)) (fe_line (sanitize (name ++ [32] ++ errtext)))
+      (pa_line (sanitize name ++ b """")).
+    destruct close; destruct (code_of d2 d1 d0 =? 407); cbn [app map]; unfold kv_of; rewrite ?ph_cl, ?ph_fe, ?ph_pa;
+      (etransitivity; [reflexivity|]); rewrite (trim_ows_digits (dec n)) by apply dec_fuel_digits; reflexivity.
+  Qed.
+
+  Lemma hls_fe : existsb (fun kv => eq_fold (fst kv) (b "X-Forwarder-Error")) (map kv_of hls) = true.
+  Proof.
+    unfold hls, error_lines. fold body n. fold (cl_line (dec n)) (fe_line (sanitize (name ++ [32] ++ errtext)))
+      (pa_line (sanitize name ++ b """")).
+    destruct close; destruct (code_of d2 d1 d0 =? 407); cbn [app map]; unfold kv_of; rewrite ?ph_cl, ?ph_fe, ?ph_pa; reflexivity.
+  Qed.
+
+  (* the whole error response: complete, status = the classifier's code, exactly its body,
+     nothing after it, Content-Length framing, and it carries X-Forwarder-Error *)
+  Lemma error_response_wellformed eof :
+    let r := client_parse (error_wire minor d2 d1 d0 reason name msg errtext close) eof false in
+    pv r = Complete /\ pstatus r = code /\ pbody r = body /\ prest r = [] /\ pframing r = 1 /\
+    existsb (fun kv => eq_fold (fst kv) (b "X-Forwarder-Error")) (phdr r) = true.
+  Proof.
+    assert (WF : wf_head sl hls minor code).
+    { repeat split; [exact sl_line_ok | exact sl_parses | exact code_ge | exact hls_ok]. }
+    pose proof (complete_length sl hls minor code body (dec n) [] n WF code_has_body hls_te hls_cl
+                  (parse_dec_dec n Hlen) eq_refl (Nat2N.id _) eof) as C.
+    cbn zeta in *. change (error_wire minor d2 d1 d0 reason name msg errtext close) with (wire sl hls body).
+    destruct C as (C1 & C2 & C3 & C4 & C5). repeat split; auto.
+    rewrite (client_parse_wire sl hls minor code body eof false WF).
+    rewrite (after_head_length hls minor code body (dec n) [] n code_has_body hls_te hls_cl (parse_dec_dec n Hlen) eq_refl (Nat2N.id _)).
+    rewrite Nat.ltb_irrefl. cbn [phdr]. exact hls_fe.
+  Qed.
+End ErrorResponse.
